@@ -186,7 +186,7 @@ func evalC19Plan(p c19Plan) *Failure {
 		mu.Unlock()
 	}
 	expectClosed := func(conn net.Conn, mode string) {
-		conn.SetReadDeadline(time.Now().Add(5 * time.Second))
+		conn.SetReadDeadline(time.Now().Add(10 * time.Second))
 		buf := make([]byte, 4096)
 		for {
 			_, err := conn.Read(buf)
@@ -245,7 +245,7 @@ func evalC19Plan(p c19Plan) *Failure {
 			return
 		}
 		for i := 0; i < spec.Reqs; i++ {
-			if _, err := roundTrip(conn, resp.Cmd("GET", fmt.Sprintf("k%d", i)).Bytes(), 5*time.Second); err != nil {
+			if _, err := roundTrip(conn, resp.Cmd("GET", fmt.Sprintf("k%d", i)).Bytes(), 10*time.Second); err != nil {
 				fail(failf("c19|not-serving", "%s: request %d on a %s connection: %v", what, i, spec.Mode, err))
 				return
 			}
